@@ -273,6 +273,50 @@ func runC09(c *Ctx) {
 			c.Check(okT, rT, p.FuncKey(t), FirstPos(p, t), "is_running is refreshed after the final status", "the terminal function stores the final status without refreshing IsRunning in the record: after the instance is unregistered the API keeps reporting is_running=true for a process that has ended")
 		}
 	}
+	// while the instance is registered the API reads the record through the instance's getters: they refresh the
+	// derived fields first (IsRunning is otherwise only written at the terminal state)
+	{
+		rG := c.Rule("state-getters-refresh", "every Process method that returns the state record (or hands it to a callback parameter) first passes, on every path, a store of IsRunning computed from the current status")
+		refresh := p.Deep(StoreTo("IsRunning", s.FIsRunning))
+		nG := 0
+		for _, f := range p.FuncsOfPkg("app") {
+			if !s.IsProcessMethod(f) || f.Parent() != nil {
+				continue
+			}
+			var uses []ssa.Instruction
+			res := f.Signature.Results()
+			if res.Len() == 1 && (isPtrTo(res.At(0).Type(), s.ProcState) || types.Identical(res.At(0).Type(), s.ProcState)) {
+				for _, ret := range returnsOf(f) {
+					v := RetVals(ret)[0]
+					if PathOf(v).LastField() == s.FProcState || PathOf(v).HasField(s.FProcState) {
+						uses = append(uses, ret)
+					}
+				}
+			}
+			AllInstrs(f, func(in ssa.Instruction) {
+				call, ok := in.(*ssa.Call)
+				if !ok || call.Call.IsInvoke() {
+					return
+				}
+				if _, isPrm := call.Call.Value.(*ssa.Parameter); !isPrm {
+					return
+				}
+				for _, a := range call.Call.Args {
+					if PathOf(a).LastField() == s.FProcState {
+						uses = append(uses, in)
+					}
+				}
+			})
+			if len(uses) == 0 {
+				continue
+			}
+			nG++
+			c.Touch(f)
+			r := MustPrecede(f, refresh, func(in ssa.Instruction) bool { return isOneOf(in, uses) }, nil)
+			c.Check(r.OK, rG, p.FuncKey(f), FirstPos(p, f), "derived fields refreshed before the record is handed out", "the state record is handed out without refreshing IsRunning: a running process is reported with is_running=false (the field is otherwise written only when the process ends)")
+		}
+		c.Check(nG >= 1, rG, "floor:getters", "", "state getters found", "no Process method hands out the state record")
+	}
 	rRec := c.Rule("registry-record-is-live-record", "the function that moves a process to another name re-registers the state record it found (the one the instance writes to), not a copy, and stores the new name into it on every path through the move")
 	nRen := 0
 	for _, f := range p.FuncsOfPkg("app") {
